@@ -1611,7 +1611,7 @@ class Polygon2D(Base2DIn2D):
                         if not out_poly.is_clockwise:
                             pts = (out_seg.p1, in_seg.p1, in_seg.p2, out_seg.p2)
                         else:
-                            (out_seg.p1, out_seg.p2, in_seg.p2, in_seg.p1)
+                            pts = (out_seg.p1, out_seg.p2, in_seg.p2, in_seg.p1)
                     perimeter_sub_polys.append(Polygon2D(pts))
             return perimeter_sub_polys, core_sub_polys
 
